@@ -4,6 +4,7 @@ import (
 	"fmt"
 	"sort"
 
+	"github.com/cybergarage/go-redis/redis"
 	"github.com/cybergarage/go-redis/redis/auth"
 	"verif/double"
 	"verif/gen"
@@ -201,6 +202,17 @@ func c20run(idx int) run.Result {
 	r := rng.New(c20.seed, rng.Str("C20ch"), uint64(idx))
 	rec := double.NewRec()
 	rec.Script = failScript(c.Pipe.FailAt)
+	if idx%6 == 4 {
+		// a handler that returns nothing (nil message, nil error) for some calls: composed commands then fail
+		// inside the framework and the failure is answered with an error reply
+		fail, nilAt := failScript(c.Pipe.FailAt), 1+r.Intn(3)
+		rec.Script = func(cl *double.Call) (*redis.Message, error, bool) {
+			if cl.N%4 == nilAt {
+				return nil, nil, true
+			}
+			return fail(cl)
+		}
+	}
 	srv := newServer(rec)
 	tr := double.NewSpanRecorder()
 	srv.SetTracer(tr)
@@ -287,7 +299,7 @@ func init() {
 	run.Register(&run.Prop{
 		ID: "C20", Level: "exploration",
 		Rule: func(tier string) string {
-			return "case = one pipeline as in C03/C10 (every command rotating in position 0; valid, ill-formed, surplus, unknown, composed commands, QUIT, scripted handler errors), optionally on a password-protected server with AUTH inserted at a seeded position (requests before it are unauthorized), with a non-array request inserted, ending in: EOF at the end, EOF or reset at a seeded byte offset inside the stream, a malformed frame, or a failing reply write (the k-th write fails, optionally after a few bytes); delivered whole, per request, 1-byte or random k-way. A recording tracer.Tracer (whose contexts are the library's own common.NewSpanContextWith) is installed with SetTracer. The merged log of span, would-block and write events is checked online against the trace specification: finish refers to an open span, never twice; a child starts under an open parent and all children finish before the parent; at a would-block read only the waiting root and its parse child are open; a new root never starts while another is open; each reply write lies inside exactly one root and its response child; a finished root has one parse child, <=1 command child and <=1 response child; nothing is open when the loop returns. non-trivial = error outcome, composed command, QUIT, password, or an ending other than clean EOF"
+			return "case = one pipeline as in C03/C10 (every command rotating in position 0; valid, ill-formed, surplus, unknown, composed commands, QUIT, scripted handler errors, and in every sixth case a handler that returns a nil message without an error for some calls), optionally on a password-protected server with AUTH inserted at a seeded position (requests before it are unauthorized), with a non-array request inserted, ending in: EOF at the end, EOF or reset at a seeded byte offset inside the stream, a malformed frame, or a failing reply write (the k-th write fails, optionally after a few bytes); delivered whole, per request, 1-byte or random k-way. A recording tracer.Tracer (whose contexts are the library's own common.NewSpanContextWith) is installed with SetTracer. The merged log of span, would-block and write events is checked online against the trace specification: finish refers to an open span, never twice; a child starts under an open parent and all children finish before the parent; at a would-block read only the waiting root and its parse child are open; a new root never starts while another is open; each reply write lies inside exactly one root and its response child; a finished root has one parse child, <=1 command child and <=1 response child; nothing is open when the loop returns. non-trivial = error outcome, composed command, QUIT, password, or an ending other than clean EOF"
 		},
 		Assumptions: []string{"handlers do not panic (a panic inside a command is outside the statement's list of outcomes)"},
 		Setup: func(tier string, seed uint64) int {
